@@ -43,3 +43,22 @@ Example C10_example :
   vtree_ok t 3 = true /\
   parse_hashmap (-1) (begin_parse (cell_of t 3)) 3 = Ok [([false; false; false], mkS (fst v) (snd v))].
 Proof. vm_compute. split; reflexivity. Qed.
+
+(* a label longer than the remaining key is refused by both parsers (plain: whatever the cell type, the
+   label is read and checked before the type is looked at; augmented: on an ordinary cell) *)
+Theorem C10_label_too_long_rejected : forall s m l suffix s1,
+  deserialize_hml s m = Ok (l, suffix, s1) -> (m < Z.of_nat l)%Z ->
+  (forall fuel ty prefix, parse_edge (S fuel) ty s m prefix = Err EValue) /\
+  (forall fuel ylen prefix, parse_aug_edge (S fuel) ylen ty_ordinary s m prefix = Err EValue).
+Proof. exact label_too_long_rejected. Qed.
+Print Assumptions C10_label_too_long_rejected.
+
+(* Hashmap 4, root cell 10 110 101010: hml_long, n = 6 (in bit_length(4) = 3 bits), six label bits *)
+Example C10_label_too_long_example :
+  let c := Cell ty_ordinary ([true; false] ++ [true; true; false] ++ [true; false; true; false; true; false]) [] in
+  deserialize_hml (begin_parse c) 4 = Ok (6%nat, [true; false; true; false; true; false], mkS [] []) /\
+  parse_hashmap ty_ordinary (begin_parse c) 4 = Err EValue /\
+  hashmap_parse ty_ordinary (begin_parse c) 4 = Err EValue /\
+  s_load_dict (mkS [true] [c]) 4 = Err EValue /\
+  parse_aug_edge parse_fuel 0 ty_ordinary (begin_parse c) 4 [] = Err EValue.
+Proof. vm_compute. repeat split; reflexivity. Qed.
